@@ -440,6 +440,18 @@ archive_read_format_ar_read_header(struct archive_read *a,
 		/* Broken header. */
 		return (ARCHIVE_EOF);
 
+	/* The blocking of the output pads the last block with zeros: a
+	 * header of 60 zero bytes is the end of the archive. */
+	{
+		const char *z = (const char *)header_data;
+		size_t k = 0;
+
+		while (k < 60 && z[k] == '\0')
+			k++;
+		if (k == 60)
+			return (ARCHIVE_EOF);
+	}
+
 	unconsumed = 60;
 
 	ret = _ar_read_header(a, entry, ar, (const char *)header_data, &unconsumed);
